@@ -6,7 +6,7 @@
 //! HEADERS prefix plus CONTINUATION frames per RFC 9113 §6.10. Final frame
 //! serialization is delegated to `serializer.rs`.
 
-use std::cmp::min;
+use std::{cmp::min, collections::VecDeque};
 
 use kawa::{
     AsBuffer, Block, BlockConverter, Chunk, Flags, Kawa, Pair, ParsingErrorKind, ParsingPhase,
@@ -167,6 +167,54 @@ impl H2BlockConverter<'_> {
     }
 }
 
+/// RFC 9110 §7.6.1 / RFC 9113 §8.2.2: besides the fixed connection-specific
+/// fields, every field named as a connection option by `Connection` is
+/// hop-by-hop and must be removed when an HTTP/1.x message is turned into
+/// HTTP/2 (`Connection` itself is dropped by the converter, so on the H2 side
+/// nothing would mark those fields as hop-by-hop any more).
+///
+/// Called when the status line is converted: the header section is complete
+/// at that point (conversion starts in the main phase) and still sits in
+/// `blocks`. `TE` keeps its dedicated rule (`te: trailers` is valid HTTP/2).
+fn elide_connection_listed_headers(blocks: &mut VecDeque<Block>, buffer: &[u8]) {
+    let mut options: Vec<Vec<u8>> = Vec::new();
+    for block in blocks.iter() {
+        match block {
+            Block::Header(Pair { key, val }) if !key.is_empty() => {
+                if compare_no_case(key.data(buffer), b"connection") {
+                    for option in val.data(buffer).split(|&b| b == b',') {
+                        let option = option.trim_ascii();
+                        if !option.is_empty() && !compare_no_case(option, b"te") {
+                            options.push(option.to_vec());
+                        }
+                    }
+                }
+            }
+            Block::Flags(Flags {
+                end_header: true, ..
+            }) => break,
+            _ => {}
+        }
+    }
+    if options.is_empty() {
+        return;
+    }
+    for block in blocks.iter_mut() {
+        match block {
+            Block::Header(pair) if !pair.is_elided() => {
+                let key = pair.key.data(buffer);
+                if options.iter().any(|option| compare_no_case(key, option)) {
+                    pair.elide();
+                }
+            }
+            Block::Flags(Flags {
+                end_header: true, ..
+            }) => break,
+            _ => {}
+        }
+    }
+}
+
 impl<T: AsBuffer> BlockConverter<T> for H2BlockConverter<'_> {
     fn initialize(&mut self, kawa: &mut Kawa<T>) {
         // This is very ugly... we may add a h2 variant in kawa::ParsingErrorKind
@@ -222,6 +270,9 @@ impl<T: AsBuffer> BlockConverter<T> for H2BlockConverter<'_> {
         // and on DATA / flag blocks (no header output to prepend).
         if matches!(block, Block::StatusLine | Block::Header(_)) {
             self.emit_pending_size_update_if_new_block();
+        }
+        if matches!(block, Block::StatusLine) {
+            elide_connection_listed_headers(&mut kawa.blocks, buffer);
         }
         match block {
             Block::StatusLine => match kawa.detached.status_line.pop() {
